@@ -53,6 +53,15 @@ class VStr(SV):
         return f"VStr({self.cls.__name__},{self.t})"
 
 
+class VTok(VStr):
+    """str subclass instance with attributes (lark.Token)."""
+    __slots__ = ("attrs",)
+
+    def __init__(self, cls, t, attrs=None):
+        super().__init__(cls, t)
+        self.attrs = attrs if attrs is not None else {}
+
+
 class VBytes(SV):
     __slots__ = ("cls", "t")
 
